@@ -3,7 +3,8 @@
 adding what this harness observed (confirmation in a scratch worktree, and which checks reported a violation).
 usage: tools/seeded_import.py <log>...   (logs written by /tmp/seedrun.sh; later logs override earlier ones)"""
 import json, os, re, shutil, sys
-SRC = "/tmp/wt/out"; DST = "/verif/seeded"
+import os as _os
+SRC = _os.environ.get("SEEDSRC", "/tmp/wt/out"); DST = "/verif/seeded"; TAG = _os.environ.get("SEEDTAG", "")
 res = {}
 for log in sys.argv[1:]:
     cur = None
@@ -28,7 +29,7 @@ rows = []
 for (pid, n), r in sorted(res.items()):
     src = os.path.join(SRC, pid, n)
     if not os.path.isdir(src): continue
-    dst = os.path.join(DST, "%s-%s" % (pid, n))
+    dst = os.path.join(DST, "%s-%s%s" % (pid, TAG, n))
     shutil.rmtree(dst, ignore_errors=True); os.makedirs(dst)
     for f in os.listdir(src):
         p = os.path.join(src, f)
@@ -44,8 +45,8 @@ for (pid, n), r in sorted(res.items()):
                        "patch_used": "patch.adapted.diff (same change re-created by hand on the later HEAD)" if os.path.exists(os.path.join(src, "patch.adapted.diff")) else "patch.diff"}
     json.dump(meta, open(os.path.join(dst, "meta.json"), "w"), indent=1)
     rows.append((pid, n, meta.get("summary", "")[:160], r["confirm"] or "?", ",".join(caught) or "MISSED", ",".join(sorted(r["checks"]))))
-with open(os.path.join(DST, "RESULTS.md"), "w") as f:
+with open(os.path.join(DST, "RESULTS%s.md" % ("-" + TAG.strip("-") if TAG else "")), "w") as f:
     f.write("# Seeded changes (written by fresh sub-agents from the property text alone)\n\n| id | change | confirmed | checks run | caught by |\n|---|---|---|---|---|\n")
     for pid, n, summ, conf, caught, ran in rows:
-        f.write("| %s-%s | %s | %s | %s | %s |\n" % (pid, n, summ.replace("|", "/"), "yes" if conf.startswith("confirmed") else conf[:60], ran, caught))
+        f.write("| %s-%s%s | %s | %s | %s | %s |\n" % (pid, TAG, n, summ.replace("|", "/"), "yes" if conf.startswith("confirmed") else conf[:60], ran, caught))
 print(len(rows), "imported;", sum(1 for r in rows if r[4] == "MISSED"), "missed")
